@@ -36,6 +36,7 @@ fn k_is_not_monotonic() {
 // @ob id=K.chop_quad_at props=C07,C08 kind=complete tier=quick timeout=900 fns=chop_quad_at,flatten_double_quad_extrema
 // @+ desc="chop_quad_at for finite control points in ±4000 and 0<t<1, followed by flatten_double_quad_extrema: no debug assertion fires; the two halves share the split point dst[2]; the original end points are preserved bit for bit (dst[0]==src[0], dst[4]==src[2]); after flattening dst[1].y == dst[2].y == dst[3].y (each half is monotonic in y by construction)"
 #[kani::proof]
+#[kani::unwind(8)]
 fn k_chop_quad_at() {
     let v: [f32; 6] = kani::any();
     let mut i = 0;
@@ -47,6 +48,8 @@ fn k_chop_quad_at() {
     chop_quad_at(&src, &mut dst, t);
     assert!(dst[0].x.to_bits() == src[0].x.to_bits() && dst[0].y.to_bits() == src[0].y.to_bits(), "first end point preserved");
     assert!(dst[4].x.to_bits() == src[2].x.to_bits() && dst[4].y.to_bits() == src[2].y.to_bits(), "last end point preserved");
+    let mut k = 0;
+    while k < 5 { assert!(dst[k].x.is_finite() && dst[k].y.is_finite(), "interpolated points are finite"); k += 1; }
     flatten_double_quad_extrema(&mut dst);
     assert!(dst[1].y == dst[2].y && dst[3].y == dst[2].y, "control points level with the split point");
     assert!(dst[0].x.to_bits() == src[0].x.to_bits() && dst[4].y.to_bits() == src[2].y.to_bits(), "end points still preserved");
